@@ -124,16 +124,46 @@ T = {
  "C17-m1": ("C17", "round gains a fast path math.Floor(n+0.5) for places == 0: odd integers between 2^52 and 2^53 round to their even neighbour", "c17.apply"),
  "C17-m2": ("C17", "ValueOf interns float 0.0/1.0 as int 0/1: divided_by with a float divisor of exactly 1.0 does integer division", "c17.apply"),
 }
-for k, (prop, needs, caught) in T.items():
-    d = os.path.join(ROOT, "seeded", k)
-    if not os.path.isdir(d):
-        continue
-    meta = {
-        "id": k, "property": prop, "breaks": needs,
-        "needs_to_manifest": open(os.path.join(d, "NOTES.md")).read()[:1200] if os.path.exists(os.path.join(d, "NOTES.md")) else "",
-        "confirmed": "driver/seedverify.sh <dir>: in a scratch worktree of /repo HEAD the demo passes on the clean tree; with patch.diff applied `go build ./...` and the unedited suite (`go test -vet=off -count=1 ./...`) pass and the demo fails",
-        "run_against_checks": "driver/seedtest.sh <dir>/patch.diff %s  (git apply to /repo, ./run %s quick, git checkout -- .)" % (prop, prop),
-        "caught_by": caught,
-    }
-    json.dump(meta, open(os.path.join(d, "meta.json"), "w"), indent=1)
-    print("wrote", k)
+def results():
+    """seeded/RESULTS.tsv (written by driver/seedall.sh): id -> list of (check run, exit code, sub-check, signature)"""
+    out = {}
+    p = os.path.join(ROOT, "seeded", "RESULTS.tsv")
+    if os.path.exists(p):
+        for line in open(p):
+            f = line.rstrip("\n").split("\t")
+            if len(f) >= 5:
+                out.setdefault(f[0], []).append((f[1], f[2], f[3], f[4]))
+    return out
+
+
+def table():
+    """The markdown table of DESIGN.md section 10."""
+    res = results()
+    rows = ["| seeded change | what it breaks / what it needs | detected by | last regression run (quick, seed 1) |", "|---|---|---|---|"]
+    for k in sorted(T):
+        prop, needs, caught = T[k]
+        last = "; ".join("%s: %s" % (r[0], ("`%s`" % r[3]) if r[1] == "1" else ("silent" if r[1] == "0" else "exit " + r[1])) for r in res.get(k, [])) or "-"
+        rows.append("| %s | %s | %s | %s |" % (k, needs.replace("|", "\\|"), caught.replace("|", "\\|"), last.replace("|", "\\|")))
+    return "\n".join(rows)
+
+
+if __name__ == "__main__":
+    import sys
+    if sys.argv[1:] == ["table"]:
+        print(table())
+        sys.exit(0)
+    res = results()
+    for k, (prop, needs, caught) in T.items():
+        d = os.path.join(ROOT, "seeded", k)
+        if not os.path.isdir(d):
+            continue
+        meta = {
+            "id": k, "property": prop, "breaks": needs,
+            "needs_to_manifest": open(os.path.join(d, "NOTES.md")).read()[:1200] if os.path.exists(os.path.join(d, "NOTES.md")) else "",
+            "confirmed": "driver/seedverify.sh <dir>: in a scratch worktree of /repo HEAD the demo passes on the clean tree; with patch.diff applied `go build ./...` and the unedited suite (`go test -vet=off -count=1 ./...`) pass and the demo fails",
+            "run_against_checks": "driver/seedtest.sh <dir>/patch.diff %s  (git apply to /repo, ./run %s quick, git checkout -- .)" % (prop, prop),
+            "caught_by": caught,
+            "last_regression_run": [{"check": r[0], "exit": r[1], "sub_check": r[2], "signature": r[3]} for r in res.get(k, [])],
+        }
+        json.dump(meta, open(os.path.join(d, "meta.json"), "w"), indent=1)
+        print("wrote", k)
